@@ -464,9 +464,25 @@ func c31RunEgress(p c31EPlan) (res c31EResult) {
 			res.classes["stall-both-upstreams"] = true
 		}
 		if st.Kill != "" && killedAt.IsZero() {
-			victims := primAddrs[:1]
-			if st.Kill == "prim01" && len(primAddrs) >= 3 {
-				victims = primAddrs[:2]
+			// the address the primary sender is really connected to (normally the first of its pool; it
+			// may have moved on if that first dial failed) goes first
+			order := append([]string(nil), primAddrs...)
+			for i, a := range order {
+				u := ups[upOf(a)]
+				u.mu.Lock()
+				inUse := len(u.conns) > 0
+				u.mu.Unlock()
+				if inUse {
+					order[0], order[i] = order[i], order[0]
+					if i != 0 {
+						res.classes["sender-was-not-on-its-first-address"] = true
+					}
+					break
+				}
+			}
+			victims := order[:1]
+			if st.Kill == "prim01" && len(order) >= 3 {
+				victims = order[:2]
 				res.classes["two-addresses-died"] = true
 			}
 			if len(primAddrs) < 2 {
@@ -511,7 +527,7 @@ func c31RunEgress(p c31EPlan) (res c31EResult) {
 					res.inconclusive = "the sender did not count a write error within 20 s after its upstream was closed"
 					return
 				}
-				if !detected && n%30 == 0 && n < 90 {
+				if !detected && (n%30 == 0 && n < 90 || n%100 == 0) {
 					for k := 0; k < 40; k++ {
 						if !offer() {
 							return
